@@ -90,6 +90,31 @@ def run(task):
         other_c.add(byann[0][0], _Seg(30, 31), "other")  # a different continuum stored at construction
         good, bad = candidates(byann)
         pool = good + bad
+        # ---- history on ONE continuum object: check, remove a unit, check again, add it back, check again
+        if m >= 1:
+            from pyannote.core import Segment as _Seg2
+            names = [a for a, _ in byann]
+
+            def singletons(units):
+                return [pa.UnitaryAlignment([(b, (to_unit(x) if b == a else None)) for b in names]) for a, x in units]
+            own_units = [(a, x) for a, us in byann for x in us]
+            extra = (names[0], (60, 61, own_units[0][1][2]))
+            c2 = build_continuum(spec)
+            c2.add(extra[0], _Seg2(60, 61), extra[1][2])
+            seq = [verdict(lambda: pa.Alignment(singletons(own_units + [extra])).check(c2))]
+            c2.remove(extra[0], to_unit(extra[1]))
+            seq.append(verdict(lambda: pa.Alignment(singletons(own_units)).check(c2)))
+            seq.append(verdict(lambda: pa.Alignment(singletons(own_units), continuum=c2, check_validity=True)))
+            c2.add(extra[0], _Seg2(60, 61), extra[1][2])
+            seq.append(verdict(lambda: pa.Alignment(singletons(own_units)).check(c2)))
+            res["evaluations"] += 4
+            res["transitions"] += 6
+            res["traces"] += 4
+            if seq != ["ok", "ok", "ok", "SetPartitionError"]:
+                res["violations"].append({
+                    "msg": f"check() across a history of one continuum (full partition / after remove() / at construction / "
+                           f"after add()): verdicts {seq}, expected ok, ok, ok, SetPartitionError",
+                    "case": {"spec": spec, "nts": [], "point": "history"}, "sig": h(["hist", seq])})
         # ---- a continuum that has annotators but NO unit, passed explicitly: every own unit (there is none) occurs
         #      exactly once, so any alignment without a repeated couple is accepted - judged against THAT continuum
         empty_c = pa.Continuum()
